@@ -56,6 +56,11 @@ CHECKS: dict[str, dict] = {
         technique="explicit-state exploration of the real blocking endpoint/client on a fake socket (every chunking x every close offset x every call history, states merged on delivered bytes, calls, results and canonical receiver heap) against a list reference model; async endpoint/client by schedule enumeration",
         text="For every stream up to 3 packets (+ partial trailing frame), every byte offset of the peer's close, every chunking and every history of recv_packet / iter_received_packets calls with timeouts in {None, >0, 0}: each complete packet exactly once in order, end-of-stream only after all of them, never a partial frame, and end-of-stream is sticky without blocking.",
     ),
+    "C11": dict(
+        cat="exploration", ref="DESIGN.md §3 C11, §2 E3", engine="E1 world + E3 vblock (+E2 for the async iterator)",
+        technique="complete enumeration of arrival schedules (cuts x delay tuples) x timeouts x retry intervals on a virtual clock, spurious readiness as bounded deviations; oracle = exact virtual elapsed time against the reference 'return at A iff A < T else TimeoutError at T'",
+        text="For every enumerated arrival schedule the blocking call returns the packet at the instant its last byte arrived iff that is before the deadline, else raises TimeoutError exactly T after it started (never earlier, never later), T=0 never waits, iterators share one budget across packets. Ties with the deadline are excluded and counted. One known finding (TLS-like short reads with T=0) is keyed separately.",
+    ),
 }
 
 NOT_YET: dict[str, str] = {}
